@@ -133,6 +133,49 @@ class GeffReader:
             prop_dict[_path.DATA] = expect_array(prop_group, _path.DATA, prop_type)
         return prop_dict
 
+    @staticmethod
+    def _mask_to_indices(mask: NDArray[np.bool_] | None, length: int) -> NDArray[np.intp] | None:
+        """Turn a boolean mask over `length` elements into the sorted indices it selects.
+
+        Args:
+            mask (NDArray[np.bool_] | None): A 1D boolean mask, or None to select everything.
+            length (int): The number of elements the mask must cover.
+
+        Raises:
+            IndexError: If the mask is not a 1D array of `length` elements.
+
+        Returns:
+            NDArray[np.intp] | None: The selected indices, or None if the mask is None.
+        """
+        if mask is None:
+            return None
+        mask = np.asarray(mask)
+        if mask.shape != (length,):
+            raise IndexError(
+                f"Mask of shape {mask.shape} does not match the number of elements ({length})"
+            )
+        return np.where(mask)[0]
+
+    @staticmethod
+    def _load_zarr_subset(zarr_arr: zarr.Array, indices: NDArray[np.intp] | None) -> NDArray:
+        """Load the elements of a zarr array selected along its first axis.
+
+        Args:
+            zarr_arr (zarr.Array): The zarr array to read from.
+            indices (NDArray[np.intp] | None): Sorted integer indices of the elements
+                (first axis) to load, or None to load the full array.
+
+        Returns:
+            NDArray: The selected elements, in stored order. An empty selection gives an
+                array of shape `(0, *zarr_arr.shape[1:])`.
+        """
+        if indices is None:
+            return np.asarray(zarr_arr[...])
+        if len(indices) == 0:
+            # zarr cannot index with an empty selection
+            return np.empty((0, *zarr_arr.shape[1:]), dtype=zarr_arr.dtype)
+        return np.asarray(zarr_arr.oindex[indices])
+
     def _load_prop_to_memory(
         self,
         zarr_prop: ZarrPropDict,
@@ -155,22 +198,27 @@ class GeffReader:
         Returns:
             PropDictNpArray: The property loaded into memory as "values" and "missing" arrays.
         """
+        indices = self._mask_to_indices(mask, zarr_prop[_path.VALUES].shape[0])
+
         dtype = np.dtype(prop_metadata.dtype)
         values_dtype = np.uint64 if prop_metadata.varlength else dtype
         values = np.array(
-            zarr_prop[_path.VALUES][mask.tolist() if mask is not None else ...],
+            self._load_zarr_subset(zarr_prop[_path.VALUES], indices),
             dtype=values_dtype,
         )
         if _path.MISSING in zarr_prop:
             missing = np.array(
-                zarr_prop[_path.MISSING][mask.tolist() if mask is not None else ...],
+                self._load_zarr_subset(zarr_prop[_path.MISSING], indices),
                 dtype=bool,
             )
         else:
             missing = None
         if _path.DATA in zarr_prop:
+            # `data` is the flat concatenation of all variable length values, addressed by
+            # the offsets stored in `values`: it has no per-element axis and cannot be
+            # subset by the node/edge mask, so it is always loaded in full.
             data = np.array(
-                zarr_prop[_path.DATA][mask.tolist() if mask is not None else ...],
+                zarr_prop[_path.DATA][...],
                 dtype=dtype,
             )
         else:
@@ -222,7 +270,8 @@ class GeffReader:
                 }
                 ```
         """
-        nodes = np.array(self.nodes[node_mask.tolist() if node_mask is not None else ...])
+        node_indices = self._mask_to_indices(node_mask, self.nodes.shape[0])
+        nodes = self._load_zarr_subset(self.nodes, node_indices)
         node_props: dict[str, PropDictNpArray] = {}
         for name, props in self.node_props.items():
             prop_metadata = self.metadata.node_props_metadata[name]
@@ -230,6 +279,7 @@ class GeffReader:
 
         # remove edges if any of it's nodes has been masked
         edges = np.array(self.edges[:])
+        self._mask_to_indices(edge_mask, edges.shape[0])  # only checks the mask length
         if node_mask is not None:
             edge_mask_removed_nodes = np.isin(edges, nodes).all(axis=1)
             if edge_mask is not None:
